@@ -21,6 +21,8 @@ import (
 
 func init() {
 	commands["once"] = func(a []string) int { return nativeMain("once", a) }
+	commands["avstress"] = func(a []string) int { return nativeMain("avstress", a) }
+	commands["poolstress"] = func(a []string) int { return nativeMain("poolstress", a) }
 	commands["av"] = func(a []string) int { return nativeMain("av", a) }
 	commands["pool"] = func(a []string) int { return nativeMain("pool", a) }
 	commands["mapstress"] = func(a []string) int { return nativeMain("mapstress", a) }
@@ -76,6 +78,12 @@ func nativeMain(kind string, args []string) int {
 			header, comment, lines = avScenario(r)
 		case "pool":
 			header, comment, lines = poolScenario(r)
+		case "avstress":
+			runtime.GOMAXPROCS(8)
+			header, comment, lines = avStress(r)
+		case "poolstress":
+			runtime.GOMAXPROCS(8)
+			header, comment, lines = poolStress(r)
 		case "mapstress":
 			header, comment, lines = mapStress(r)
 		case "setstress":
@@ -252,6 +260,162 @@ func avScenario(r *rand.Rand) (string, string, []string) {
 	close(start)
 	wg.Wait()
 	return "av", fmt.Sprintf("av workers=%d ops=%d", nw, nops), rec.lines()
+}
+
+// ---------------------------------------------------------------------------------------------- C18 high-contention runs
+
+// fastLog: per-goroutine event buffers stamped by one shared atomic counter. Nothing but the two atomic adds sits between
+// consecutive calls of the code under test, so that windows of a few instructions inside a non-atomic implementation
+// (Load-then-Store, check-then-act) are actually hit by other goroutines; the text of the events is built afterwards.
+type fastEv struct {
+	stamp int64
+	text  string
+}
+
+type fastLog struct {
+	clock int64
+	per   [][]fastEv
+}
+
+func newFastLog(n int) *fastLog { return &fastLog{per: make([][]fastEv, n)} }
+
+func (f *fastLog) stamp() int64 { return atomic.AddInt64(&f.clock, 1) }
+
+func (f *fastLog) lines() []string {
+	var all []fastEv
+	for _, p := range f.per {
+		all = append(all, p...)
+	}
+	sort.Slice(all, func(i, j int) bool { return all[i].stamp < all[j].stamp })
+	out := make([]string, len(all))
+	for i, e := range all {
+		out[i] = e.text
+	}
+	return out
+}
+
+// avStress: 3-4 goroutines hammer one AtomicValue with swaps / stores / CAS of globally unique values (plus loads)
+func avStress(r *rand.Rand) (string, string, []string) {
+	nw := 3 + r.Intn(2)
+	nops := 150 + r.Intn(150)
+	var av sync2.AtomicValue[int]
+	fl := newFastLog(nw)
+	type rec struct {
+		inv, res int64
+		kind     int
+		a, b, v  int
+		ok       bool
+	}
+	recs := make([][]rec, nw)
+	kinds := make([][]int, nw)
+	for t := range kinds {
+		kinds[t] = make([]int, nops)
+		for j := range kinds[t] {
+			kinds[t][j] = r.Intn(10)
+		}
+		recs[t] = make([]rec, nops)
+	}
+	var wg sync.WaitGroup
+	start := make(chan struct{})
+	for t := 0; t < nw; t++ {
+		wg.Add(1)
+		go func(t int) {
+			defer wg.Done()
+			last := 0
+			<-start
+			for j := 0; j < nops; j++ {
+				val := (t+1)*1000000 + j + 1
+				rc := &recs[t][j]
+				switch k := kinds[t][j]; {
+				case k < 6:
+					rc.kind, rc.a = 0, val
+					rc.inv = fl.stamp()
+					rc.v = av.Swap(val)
+					rc.res = fl.stamp()
+					last = rc.v
+				case k < 7:
+					rc.kind = 1
+					rc.inv = fl.stamp()
+					rc.v = av.Load()
+					rc.res = fl.stamp()
+					last = rc.v
+				case k < 8:
+					rc.kind, rc.a = 2, val
+					rc.inv = fl.stamp()
+					av.Store(val)
+					rc.res = fl.stamp()
+				default:
+					rc.kind, rc.a, rc.b = 3, last, val
+					rc.inv = fl.stamp()
+					rc.ok = av.CompareAndSwap(last, val)
+					rc.res = fl.stamp()
+				}
+			}
+		}(t)
+	}
+	close(start)
+	wg.Wait()
+	for t := range recs {
+		for _, rc := range recs[t] {
+			switch rc.kind {
+			case 0:
+				fl.per[t] = append(fl.per[t], fastEv{rc.inv, fmt.Sprintf("inv %d swap %d", t, rc.a)}, fastEv{rc.res, fmt.Sprintf("res %d %d", t, rc.v)})
+			case 1:
+				fl.per[t] = append(fl.per[t], fastEv{rc.inv, fmt.Sprintf("inv %d load", t)}, fastEv{rc.res, fmt.Sprintf("res %d %d", t, rc.v)})
+			case 2:
+				fl.per[t] = append(fl.per[t], fastEv{rc.inv, fmt.Sprintf("inv %d store %d", t, rc.a)}, fastEv{rc.res, fmt.Sprintf("res %d done", t)})
+			default:
+				fl.per[t] = append(fl.per[t], fastEv{rc.inv, fmt.Sprintf("inv %d cas %d %d", t, rc.a, rc.b)}, fastEv{rc.res, fmt.Sprintf("res %d %s", t, btoa(rc.ok))})
+			}
+		}
+	}
+	return "av", fmt.Sprintf("avstress workers=%d ops=%d", nw, nops), fl.lines()
+}
+
+// poolStress: 3-4 goroutines loop Get / Put of the item just obtained on one Pool with New
+func poolStress(r *rand.Rand) (string, string, []string) {
+	nw := 3 + r.Intn(2)
+	nops := 120 + r.Intn(120)
+	var fresh int64 = 999
+	p := &sync2.Pool[*poolItem]{}
+	p.New = func() *poolItem { return &poolItem{id: int(atomic.AddInt64(&fresh, 1))} }
+	fl := newFastLog(nw)
+	type rec struct {
+		ginv, gres, pinv, pres int64
+		id                     int
+	}
+	recs := make([][]rec, nw)
+	for t := range recs {
+		recs[t] = make([]rec, nops)
+	}
+	var wg sync.WaitGroup
+	start := make(chan struct{})
+	for t := 0; t < nw; t++ {
+		wg.Add(1)
+		go func(t int) {
+			defer wg.Done()
+			<-start
+			for j := 0; j < nops; j++ {
+				rc := &recs[t][j]
+				rc.ginv = fl.stamp()
+				it := p.Get()
+				rc.gres = fl.stamp()
+				rc.id = it.id
+				rc.pinv = fl.stamp()
+				p.Put(it)
+				rc.pres = fl.stamp()
+			}
+		}(t)
+	}
+	close(start)
+	wg.Wait()
+	for t := range recs {
+		for _, rc := range recs[t] {
+			fl.per[t] = append(fl.per[t], fastEv{rc.ginv, fmt.Sprintf("inv %d get", t)}, fastEv{rc.gres, fmt.Sprintf("res %d %d", t, rc.id)},
+				fastEv{rc.pinv, fmt.Sprintf("inv %d put %d", t, rc.id)}, fastEv{rc.pres, fmt.Sprintf("res %d done", t)})
+		}
+	}
+	return "pool 1", fmt.Sprintf("poolstress workers=%d ops=%d", nw, nops), fl.lines()
 }
 
 // ---------------------------------------------------------------------------------------------- C18 Pool
